@@ -1094,7 +1094,7 @@ void replylog(struct radmsg *msg, struct server *server, struct request *rq) {
         switch (options.log_mac) {
         case RSP_MAC_VENDOR_HASHED:
         case RSP_MAC_VENDOR_KEY_HASHED:
-            memcpy(logstationid + 11, stationid, 9);
+            strncpy(logstationid + 11, (char *)stationid, 9);
             fticks_hashmac((uint8_t *)stationid, options.log_mac == RSP_MAC_VENDOR_KEY_HASHED ? options.log_key : NULL, 65, (uint8_t *)logstationid + 20);
             break;
         case RSP_MAC_FULLY_HASHED:
